@@ -72,6 +72,9 @@ def generate(res, tier, wd, want, wrappers=("cvxpy",)):
     r = tlc("Pep", pep_cfg(1, 1, classes_all, wrappers, invs=False), wd)
     res.add_tlc("Pep(export: <=1 feature, 1 solve, all classes)", r)
     progs = _progs_from(r["out"])
+    # every single feature is exercised at least on one function class and one operator class, whatever the cap
+    progs = [dict(p, _must=1) if p["prog"]["cls"] in (1, 5) and p["solves"][0]["heur"] == "none" and p["solves"][0]["mode"] == "dual"
+             and p["solves"][0]["verbose"] == 0 else p for p in progs]
     # (3b) every edit between two plain solves, for every class, without and with a partition (exhaustive)
     r = tlc("Pep", pep_cfg(1, 2, classes_all, wrappers, invs=False, plain=True, allowed=("part",)), wd)
     res.add_tlc("Pep(export: every edit between two plain solves, all classes, +/- partition)", r)
